@@ -2,6 +2,7 @@ package gorums
 
 import (
 	"context"
+	"google.golang.org/protobuf/proto"
 
 	"github.com/relab/gorums/ordering"
 	"google.golang.org/protobuf/reflect/protoreflect"
@@ -52,7 +53,8 @@ func (c RawConfiguration) AsyncCall(ctx context.Context, d QuorumCallData) *Asyn
 	for _, n := range c {
 		msg := d.Message
 		if d.PerNodeArgFn != nil {
-			msg = d.PerNodeArgFn(d.Message, n.id)
+			// f is documented to receive a copy of the request: the nodes must not share one message
+			msg = d.PerNodeArgFn(proto.Clone(d.Message), n.id)
 			if !msg.ProtoReflect().IsValid() {
 				expectedReplies--
 				continue // don't send if no msg
